@@ -29,7 +29,7 @@ META = {
     "design_ref": "DESIGN.md §3 C14",
     "engines": ["proggen", "backends"],
 }
-REQUIRED = ("bruteforce_programs_avoid_premature_stop", "bruteforce_programs", "grid_programs", "programs_with_failures", "programs_split_and_resumed", "last_leaf_failed")
+REQUIRED = ("grid_programs_after_an_abandoned_grid", "bruteforce_programs_avoid_premature_stop", "bruteforce_programs", "grid_programs", "programs_with_failures", "programs_split_and_resumed", "last_leaf_failed")
 SHARDS = {"quick": 10, "thorough": 16}
 WATCHDOG_S = {"quick": 900, "thorough": 3 * 3600}
 
@@ -182,6 +182,26 @@ def run_grid(ctx: Ctx, rng, store, kind: str, pidx: int) -> None:
     case = {"sampler": "grid", "backend": kind, "program_index": pidx, "seed": ctx.seed, "space": space, "cuts": cuts, "seed_mode": seed_mode}
     facts = {"sampler": "grid", "backend_family": backends.family_of(kind), "split": bool(cuts), "seed_mode": seed_mode}
     mk = (lambda: optuna.samplers.GridSampler(space)) if seed_mode == "default" else (lambda: optuna.samplers.GridSampler(space, seed=sd))
+    # every 3rd program: the study already holds trials of an EARLIER, abandoned grid with the same parameter names and the same
+    # number of candidates per parameter but other values for some numeric parameters; they are not cells of the new grid
+    numeric = [nm for nm in names if sugg[nm][0] != "cat"]
+    if (pidx // 3) % 3 == 2 and numeric and n > 1:
+        shifted = rng.sample(numeric, rng.randint(1, len(numeric)))
+        old_space, old_sugg = dict(space), dict(sugg)
+        for nm in shifted:
+            kind_, a = sugg[nm]
+            off = 10 * a["step"] * (len(space[nm]) + 1)
+            old_space[nm] = [type(v)(v + off) if kind_ == "int" else float(f"{v + off:.10g}") for v in space[nm]]
+            old_sugg[nm] = (kind_, {"low": old_space[nm][0], "high": old_space[nm][-1], "step": a["step"]})
+        n_old = rng.randint(1, min(n, 4))
+        study.sampler = optuna.samplers.GridSampler(old_space, seed=sd)
+        try:
+            study.optimize(lambda t: float(len([proggen.suggest(t, nm, *old_sugg[nm]) for nm in names])), n_trials=n_old)
+            ctx.count("grid_programs_after_an_abandoned_grid")
+            case["abandoned_grid_trials"] = n_old
+            facts["after_an_abandoned_grid"] = True
+        except Exception as e:  # noqa: BLE001
+            ctx.seen("abandoned_grid_setup_errors", f"{type(e).__name__}: {str(e)[:80]}")
     prev = 0
     stopped = True
     try:
